@@ -457,7 +457,10 @@ Section World.
       end
     | KExtensions vv =>
       do d <- get_dict v;
-      ext_loop vv allow interop d [] false
+      match d with
+      | [] => if vr_ext_nonempty vr then Err EValueError else Ok (PMap [], false)
+      | _ => ext_loop vv allow interop d [] false
+      end
     | KStixObject vv =>
       do d <- get_dict v;
       match d with
@@ -724,18 +727,19 @@ Section World.
     end.
 
   (* the scan of `extensions` at the top of __init__: is there an unregistered toplevel-property-extension *)
-  Fixpoint ext_scan (l : list (ustring * jvalue)) : result bool :=
+  Fixpoint ext_scan (has_slot : bool) (l : list (ustring * jvalue)) : result bool :=
     match l with
     | [] => Ok false
     | (eid, e) :: r =>
       do t <- ext_is_toplevel e;
       if t then
         match class_for eid V21 2%N with
-        | Some _ => if vr_ext_scan_guard vr then ext_scan r
+        | Some _ => if vr_ext_scan_guard vr then ext_scan has_slot r
                     else Err EAttributeError     (* built-in extension classes have no _toplevel_properties *)
-        | None => do _ <- ext_scan r; Ok true
+        | None => do rest <- ext_scan has_slot r;
+                  Ok (if vr_toplevel_needs_slot vr then has_slot || rest else true)
         end
-      else ext_scan r
+      else ext_scan has_slot r
     end.
 
   (* the value assigned to a property name: keyword arguments first, then custom_properties; None and [] count as absent *)
@@ -814,7 +818,7 @@ Section World.
        | Some ev =>
          if negb (truthy ev) then Ok false else
          match ev with
-         | JObj exts => ext_scan exts
+         | JObj exts => ext_scan (mem_ustr (u "extensions") (map sname (cslots c))) exts
          | _ => if vr_ext_scan_guard vr then Ok false else Err EAttributeError
          end
        end;
